@@ -134,6 +134,10 @@ impl WriteExt for Writer<&mut BytesMut> {
 
 impl<W: WriteExt + ?Sized> WriteExt for IoBufWriter<W> {
     fn reserve_with(&mut self, additional: usize) -> io::Result<&mut [MaybeUninit<u8>]> {
+        // the reserved space belongs to the inner writer: everything written so far still sits in
+        // the BufWriter's own buffer and must reach the inner writer first, otherwise the
+        // output is reordered
+        io::Write::flush(self)?;
         self.get_mut().reserve_with(additional)
     }
 
